@@ -256,25 +256,7 @@ def check(run: Run) -> None:
 
     check_normalize(run, "R18.4")
 
-    # ---------------------------------------------------------------- R18.2 (quoting is for strings only)
-    n_q = 0
-    for fi in em.functions.values():
-        cfg = None
-        for n in walk_no_nested(fi.node):
-            if isinstance(n, ast.JoinedStr) and len(n.values) >= 2 and isinstance(n.values[0], ast.Constant) and n.values[0].value == '"' and isinstance(n.values[-1], ast.Constant) and n.values[-1].value == '"':
-                n_q += 1
-                cfg = cfg or CFG(fi.node)
-                nodes = cfg.node_for_stmt_containing(n)
-                conds = [c for x in nodes for c in branch_conditions(cfg, x)]
-                def str_only(t, val) -> bool:
-                    ops = t.values if isinstance(t, ast.BoolOp) and isinstance(t.op, ast.And) else [t]
-                    return val is True and any(isinstance(o, ast.Call) and ast.unparse(o.func) == "isinstance" and len(o.args) == 2 and ast.unparse(o.args[1]) == "str" for o in ops)
-                ok = any(str_only(t, val) for t, val in conds)
-                run.instance("R18.2", em.loc(n), f"{fi.qualname}: the value is wrapped in quotes only under isinstance(<value>, str)", ok=ok)
-                if not ok:
-                    run.violation("R18.2", em, fi.qualname, n, "a value is wrapped in quotes without having been tested to be a str: null / true / 3 would be written as the strings \"null\" / \"true\" / \"3\"")
-    if n_q < 3:
-        raise AnalysisError(f"emitter.py: only {n_q} quoting site(s) found")
+    check_quote_str_only(run, "R18.2")
 
     # ---------------------------------------------------------------- R18.7 (each request starts from the file, not from an earlier request)
     run.rule("R18.7", "each changes request is applied to a document parsed afresh from the bytes just read; the tool keeps no document or cache between requests", 2)
@@ -360,4 +342,28 @@ def check_normalize(run: Run, rule: str) -> None:
     run.instance(rule, wm.loc(nf.node), "_normalize_value_for_ast: no scalar-kind or None special case", ok=ok)
     for n in scalar_tests + none_tests:
         run.violation(rule, wm, nf.qualname, n, "_normalize_value_for_ast special-cases a scalar kind or None: scalars and null must pass through unchanged")
+
+
+
+def check_quote_str_only(run: Run, rule: str) -> None:
+    """every site of the emitter that wraps a value text in double quotes is control-dependent on isinstance(<value>, str)"""
+    em = run.project.mod("core.emitter")
+    n_q = 0
+    for fi in em.functions.values():
+        cfg = None
+        for n in walk_no_nested(fi.node):
+            if isinstance(n, ast.JoinedStr) and len(n.values) >= 2 and isinstance(n.values[0], ast.Constant) and n.values[0].value == '"' and isinstance(n.values[-1], ast.Constant) and n.values[-1].value == '"':
+                n_q += 1
+                cfg = cfg or CFG(fi.node)
+                nodes = cfg.node_for_stmt_containing(n)
+                conds = [c for x in nodes for c in branch_conditions(cfg, x)]
+                def str_only(t, val) -> bool:
+                    ops = t.values if isinstance(t, ast.BoolOp) and isinstance(t.op, ast.And) else [t]
+                    return val is True and any(isinstance(o, ast.Call) and ast.unparse(o.func) == "isinstance" and len(o.args) == 2 and ast.unparse(o.args[1]) == "str" for o in ops)
+                ok = any(str_only(t, val) for t, val in conds)
+                run.instance(rule, em.loc(n), f"{fi.qualname}: the value is wrapped in quotes only under isinstance(<value>, str)", ok=ok)
+                if not ok:
+                    run.violation(rule, em, fi.qualname, n, "a value is wrapped in quotes without having been tested to be a str: null / true / 3 would be written as the strings \"null\" / \"true\" / \"3\"")
+    if n_q < 3:
+        raise AnalysisError(f"emitter.py: only {n_q} quoting site(s) found")
 
